@@ -43,7 +43,7 @@ def cases(tier, seed):
         scn = dict(id='mru0-%d' % idx, seed=idx, policy=['fair', 'rr', 'eager', 'burst'][idx], capacity=None, cfg_a=cfg_a, cfg_b=cfg_b,
                    sends=[dict(side='A', length=50, at=-1), dict(side='A', length=0, at=2), dict(side='A', length=5, at=4), dict(side='B', length=7, at=3)])
         out.append(dict(id=scn['id'], kind='scn', scn=scn, seed=seed))
-    nrand = 3000 if tier == 'thorough' else 240
+    nrand = 18000 if tier == 'thorough' else 240
     block = 20
     for idx in range(0, nrand, block):
         out.append(dict(id='rand-%d' % idx, kind='rand', seed=seed * 40009 + idx, count=block))
